@@ -136,7 +136,7 @@ func runC20(r *core.Run) {
 		return
 	}
 	old := runtime.GOMAXPROCS(0)
-	rounds := r.N(12, 200)
+	rounds := r.N(8, 200)
 	for i, p := range []int{1, 4, 16} {
 		runtime.GOMAXPROCS(p)
 		liveRoundsFrom(r, i*rounds, rounds)
@@ -289,6 +289,50 @@ func runC20(r *core.Run) {
 	close(stopChurn)
 	cw.Wait()
 	world.stop()
+	// Large process: a dump bigger than the handler's initial 1 MiB buffer, with maxmem values that are
+	// sufficient for it but are not a power-of-two multiple of 1 MiB (the grow-and-retry loop must use them fully).
+	{
+		park := make(chan struct{})
+		var pw sync.WaitGroup
+		n := r.N(3000, 9000)
+		for i := 0; i < n; i++ {
+			pw.Add(1)
+			go func(d int) { defer pw.Done(); parkDeep(d, park, 0xc000000000, 7) }(8 + i%20)
+		}
+		size := len(captureAll())
+		for size < 1<<20+1<<16 { // make sure the dump really exceeds 1 MiB
+			for i := 0; i < 500; i++ {
+				pw.Add(1)
+				go func(d int) { defer pw.Done(); parkDeep(d, park, 0xc000000000, 7) }(8 + i%20)
+			}
+			runtime.Gosched()
+			size = len(captureAll())
+		}
+		r.Set("large_dump_bytes", size)
+		mms := []int{size + size/3, size + 8192}
+		if !r.Quick() {
+			mms = append(mms, 3*size+12345, 64<<20, 2*size-1)
+		}
+		for _, mm := range mms {
+			q := fmt.Sprintf("maxmem=%d&augment=0", mm)
+			resp, err := http.Get(srv.URL + "/debug/panicparse?" + q)
+			r.Eval(1)
+			if err != nil {
+				r.Violation("handler-no-response", fmt.Sprintf("GET ?%s: %v", q, err), "req", reqSpec{Method: "GET", Query: q, Valid: true})
+				continue
+			}
+			body, _ := io.ReadAll(resp.Body)
+			resp.Body.Close()
+			headers, _ := strconv.Atoi(resp.Header.Get("X-Verif-Headers"))
+			sum, _ := bucketSizes(body)
+			if resp.StatusCode != 200 || sum != headers || headers < n {
+				r.Violation("large-dump-maxmem", fmt.Sprintf("process with a %d-byte dump (%d parked goroutines), GET ?%s (sufficient maxmem): status %d, page accounts for %d goroutines, captured dump has %d headers; capture error: %q", size, n, q, resp.StatusCode, sum, headers, resp.Header.Get("X-Verif-Err")), "req", reqSpec{Method: "GET", Query: q, Valid: true})
+			}
+			r.Count("large_dump_requests", 1)
+		}
+		close(park)
+		pw.Wait()
+	}
 	for _, p := range panics {
 		r.Violation("handler-panic", p, "req", nil)
 	}
